@@ -1177,8 +1177,17 @@ class ClientObservation:
 
         def push_err(self, e):
             if self._future.done():
+                if self._future.exception() is None:
+                    # There is an item nobody has picked up yet (typically the
+                    # final response that precedes the cancellation). Items
+                    # may be superseded by newer items, but not by the end of
+                    # the observation: deliver it first, the error after it.
+                    self._deferred_error = e
+                    return
                 self._future = asyncio.get_running_loop().create_future()
             self._future.set_exception(e)
+
+        _deferred_error = None
 
         async def __anext__(self):
             f = self._future
@@ -1189,6 +1198,9 @@ class ClientObservation:
                 # a quick second future comes in in a push?
                 if f is self._future:
                     self._future = asyncio.get_running_loop().create_future()
+                    if self._deferred_error is not None:
+                        self._future.set_exception(self._deferred_error)
+                        self._deferred_error = None
                 return result
             except (error.NotObservable, error.ObservationCancelled):
                 # only exit cleanly when the server -- right away or later --
